@@ -52,6 +52,10 @@ impl DefaultEchoHandler {
             .try_as_scmp()
             .context("Packet is not a valid SCMP packet")?;
 
+        if !p.verify_checksum() {
+            anyhow::bail!("SCMP checksum does not verify");
+        }
+
         let reply_msg = match p.scmp().message() {
             ScmpMessageView::EchoRequest(r) => {
                 tracing::debug!("Echo request received, sending echo reply");
